@@ -108,6 +108,74 @@ def strategy_switch(m, b):
 
 
 def run(ck, m):
+    _run02(ck, m)
+    transports_answer_a_refusal_as_a_refusal(ck, m)
+    from nl import alias as _alias
+    ck.rule('C02.l', 'no acknowledged increment is lost (C01.e, repeated): the increment stores exactly value + argument or refuses — a sum that is '
+                     'clamped or wrapped at the i32 bounds is acknowledged with a new version while its amount is dropped')
+    _alias.repeat(ck, m, 'C01', ('C01.e',), 'C02.l', key_filter=lambda k: 'adds-exactly-or-refuses' in k or 'adds-its-argument' in k)
+
+
+def transports_answer_a_refusal_as_a_refusal(ck, m, rule='C02.m'):
+    """sibling agreement over the transports — see the rule text"""
+    P = m.prog
+    ck.rule(rule, 'the loser is told that it lost, on every transport: where a transport takes the answer of the request entry apart, the '
+                  'VersionError variant (a refused versioned write: the version presented is older than the stored one) never shares the branch '
+                  'that reports success — the store refuses correctly, but a reply `ok` to both of two writers that presented the same base '
+                  'version is, for the clients, two successful compare-and-sets (sibling rule: tcp, http and ws must agree)')
+    resp = P.adts.get('nundb::bo::Response')
+    if not resp:
+        ck.undecided(rule, 'Response', 'anchor', 'Response type not found')
+        return
+    ve = [str(v['discr']) for v in resp['variants'] if v['name'] == 'VersionError'][0]
+    er = [str(v['discr']) for v in resp['variants'] if v['name'] == 'Error'][0]
+    pr = m.reentry_names()
+    n = 0
+    for b in P.user_bodies():
+        if b.id.startswith(('nundb::client::', 'nundb::command_line::')) or b.id in pr and False:
+            continue
+        for bi, t in b.calls():
+            if callee(t) not in pr or not t['args']:
+                continue
+            # a transport hands on text it received: the command is not a constant
+            if any(core.const_str(r) is not None for r in origins(b, t['args'][0])):
+                continue
+            for (sbi, tm, els, adt) in core.enum_switches(b, bi):
+                if not adt.endswith('bo::Response'):
+                    continue
+                if er not in tm:
+                    continue         # not a reply switch (the answer is not taken apart into refusal / success)
+                # a transport REPLIES on the Error branch: it sends an `error …` text to the client or pushes the message onto the list of
+                # answers (a function that merely logs, or hands the answer on, is not a transport)
+                succ0 = {tb for v_, tb in tm.items() if v_ not in (ve, er)} | ({els} if b.term(els)['k'] != 'unreachable' else set())
+                stop_ = lambda q, _bi=bi: q == _bi         # one turn of the session loop: do not walk on into the next command
+                ereg = set(b.reach_from([tm[er]], stop=stop_, include_start=True)) - set(b.reach_from(sorted(succ0 - {tm[er]}), stop=stop_, include_start=True))
+                replies = False
+                for x in ereg:
+                    tx = b.term(x)
+                    if tx['k'] != 'call' or is_log(tx):
+                        continue
+                    d_ = callee_decl(tx)
+                    if d_.endswith('Sender::try_send') or 'try_send' in d_ or d_ == 'std::io::Write::write_fmt':
+                        fs_, _o = core.fmt_of_value(b, tx['args'][-1]) if tx['args'] else ([], [])
+                        if any(f_.text().lstrip().startswith('error') for f_ in fs_):
+                            replies = True
+                    if d_ == 'std::vec::Vec::push' and 'String' in tx['f'].get('dargs', ''):
+                        replies = True
+                if not replies:
+                    continue
+                n += 1
+                succ_targets = {tb for v_, tb in tm.items() if v_ not in (ve, er)} | ({els} if b.term(els)['k'] != 'unreachable' else set())
+                vt = tm.get(ve, els)
+                shared = vt in succ_targets
+                ck.ob(rule, short(b.id), 'version-error-is-not-answered-as-success', not shared,
+                      '%s answers a refused versioned write on its own branch (or on the branch of Error)' % short(b.id) if not shared else
+                      '%s answers Response::VersionError on the branch that reports success (%s): a set-safe that lost the comparison is '
+                      'acknowledged to its client exactly like the one that won' % (short(b.id), b.loc(vt)), b.loc(sbi))
+    ck.floor(rule, n, 3, 'transports that take the answer of the request entry apart (tcp, http, ws)')
+
+
+def _run02(ck, m):
     for k, v in RULES.items():
         ck.rule(k, v)
     ex = m.explorer()
